@@ -7,12 +7,23 @@ result, engine-call trace and object-graph snapshot after EVERY op) and all
 oracles live in harness/vnetcase.py.  This check owns the oracle
 "plain counter model of held qubits / registers";
 failures of the other L2 oracles (owned by C01/C02/C05/C06/C07) are listed as
-notes in the evidence."""
+notes in the evidence.
+
+Extra stage "client registers" (harness/vnet_regcap.py, executor and model tie
+of harness/vnetx_cases.py): registers of size 1..3 (and the default 10) made by
+new_register / add_register, in-register creates that are refused by the
+REGISTER limit (a reason other than node capacity), then creates / arrivals
+that fill the node exactly to its maximum, one slot freed and re-created; the
+plain counter of held qubits is the oracle (a refused create never consumes a
+slot; kind `capacity`), every op is tied to the Lean model VNetX."""
+from .. import core
 from .. import vnetcase
+from .. import vnetx_cases
+from .. import vnet_regcap
 
 LEAN_TARGETS = ["SqVerif.Props.C07"]
 PROPS_FILE = "SqVerif/Props/C07.lean"
-DRIVE_TARGETS = ["SqVerif.Drive.VNet"]
+DRIVE_TARGETS = ["SqVerif.Drive.VNet", "SqVerif.Drive.VNetX"]
 TRUSTED = [
     "model VNet.lean hand-written from virtual.py / quantum.py (after the repairs F1 F2 F3); tied by differential execution "
     "after every op: result, engine-call trace, object-graph snapshot (this check)",
@@ -21,6 +32,8 @@ TRUSTED = [
     "copy from outside",
     "NumPy state-vector reference (complex128, tolerance 1e-8) and the conventions qubit 0 = leftmost factor, "
     "K = [[1,-i],[i,-1]]/sqrt2 (validated against the stabilizer code by C13/C14)",
+    "client-register stage: model VNetX.lean (theorems in Props/C02X.lean, audited by C02) tied after every op through the "
+    "driver `vnetx`; the capacity oracle itself (plain counter of held qubits) is independent of the model",
 ]
 ASSUMPTIONS = [
     "operations are issued one after the other, each to completion (interleavings are C03/C04)",
@@ -30,7 +43,14 @@ ASSUMPTIONS = [
 
 
 def run(ctx):
-    return vnetcase.run_check(ctx, "C07")
+    rp = getattr(ctx, "replay", None)
+    if rp and vnetx_cases.is_x(rp):
+        core.scratch_repo()
+        return vnet_regcap.stage(ctx, core.Result())
+    res = vnetcase.run_check(ctx, "C07")
+    if not rp:
+        vnet_regcap.stage(ctx, res)
+    return res
 
 
 def search(ctx, res, broken):
